@@ -82,7 +82,8 @@ CondHolds(o, p) == CASE o = "cfalse" -> FALSE
 (* src/fn/insn: key -> option (the latest set of each kind); data: set      *)
 (* hits: <<kind,key>> -> arrivals since the breakpoint was created          *)
 RefInit == [st |-> "unload", pos |-> 0, src |-> Empty, fn |-> Empty, insn |-> Empty,
-            data |-> {}, hits |-> [k \in {} |-> 0]]
+            data |-> {}, hits |-> [k \in {} |-> 0],
+            ever |-> {}]   \* generation only: every location ever requested (stays {} unless Emit)
 
 \* breakpoints of the latest sets that cover address a (at most one, by the ASSUME)
 RCover(r, a) ==
@@ -272,8 +273,8 @@ SrcReqs == LET real == IF Alphabet = "full" THEN UNION {AnyOpt(S, LineOpts) : S 
               ELSE real \cup {[x \in DOMAIN f \cup NoCode |-> IF x \in NoCode THEN "none" ELSE f[x]] :
                                 f \in {g \in real : Cardinality(DOMAIN g) <= 1}}
 FnOpts(n) == {"cfalse", "hit2", "log"}
-FnReqs == IF Focus THEN {Empty} \cup {[n \in {m} |-> "none"] : m \in {x \in DOMAIN FnPlaces : FnPlaces[x] # {}}}
-          ELSE UNION {OneOpt(S, FnOpts) : S \in SUBSET (DOMAIN FnPlaces)}
+FnReqs == IF Focus THEN UNION {OneOpt(S, FnOpts) : S \in {{}} \cup {{m} : m \in {x \in DOMAIN FnPlaces : FnPlaces[x] # {}}}}
+          ELSE UNION {OneOpt(S, FnOpts) : S \in {T \in SUBSET (DOMAIN FnPlaces) : Cardinality(T) <= 2}}
 InsnOpts(a) == IF a \in InsnOk THEN {"cfalse", "log"} ELSE {}
 InsnReqs == IF Focus THEN UNION {OneOpt(S, InsnOpts) : S \in {{}} \cup {{a} : a \in InsnOk}}
             ELSE UNION {OneOpt(S, InsnOpts) : S \in {{}} \cup {{a} : a \in InsnOk} \cup {{b} : b \in InsnBogus}
@@ -290,7 +291,7 @@ Log(cmd, arg, robs, iobs) == hist' = IF Emit THEN Append(hist, [cmd |-> cmd, arg
 
 SetAct(cmd, req, rver, ires, ref2) ==
   /\ nreq < MaxReq
-  /\ ref' = ref2
+  /\ ref' = [ref2 EXCEPT !.ever = IF Emit THEN @ \cup LatestLocs(ref2) ELSE {}]
   /\ impl' = [c \in Cfgs |-> ires[c][1]]
   /\ last' = [kind |-> "set", cmd |-> cmd, rver |-> rver, iver |-> [c \in Cfgs |-> ires[c][2]]]
   /\ Log(cmd, IF cmd = "setDataBreakpoints" THEN req ELSE Pairs(req), [ver |-> rver], [c \in Cfgs |-> [ver |-> ires[c][2]]])
@@ -316,7 +317,10 @@ RunAct(cmd, from, rres, ires) ==
   /\ last' = [kind |-> "run", cmd |-> cmd, from |-> from, robs |-> RObs(rres),
               iobs |-> [c \in Cfgs |-> [outs |-> ires[c].outs, stop |-> ires[c].stop, it |-> IterAt[ires[c].s.pos]]],
               muted |-> [c \in Cfgs |-> impl[c].term]]
-  /\ Log(cmd, <<>>, [outs |-> rres.outs, stop |-> rres.stop, it |-> IterAt[rres.pos], nopt |-> rres.nopt],
+  /\ Log(cmd, <<>>, [outs |-> rres.outs, stop |-> rres.stop, it |-> IterAt[rres.pos], nopt |-> rres.nopt,
+                      \* selection guidance: arrivals at locations that were requested once and are not any more
+                      ngone |-> Cardinality({p \in (from + 1)..(IF rres.pos > N THEN N ELSE rres.pos) :
+                                               Exec[p] \in ref.ever \ LatestLocs(ref)})],
          [c \in Cfgs |-> [outs |-> ires[c].outs, stop |-> ires[c].stop, it |-> IterAt[ires[c].s.pos]]])
   /\ nreq' = nreq + 1
 
@@ -340,7 +344,7 @@ Do(k) == \/ k = "src" /\ \E r \in SrcReqs : SetBreakpoints(r)
 Classes == {"src", "fn", "insn", "data", "go", "go2", "go3", "go4", "restart", "src0"}
 \* focus generation follows a plan of request classes: plain breakpoints, start, then option-carrying
 \* requests on the live process alternating with run requests (all randomness goes into the requests)
-FocusPlan == << {"src0"}, {"go"}, {"src", "insn"}, {"go", "restart"}, {"src", "fn"}, {"go"} >>
+FocusPlan == << {"src0", "fn"}, {"go"}, {"src", "insn", "fn"}, {"go", "restart"}, {"src", "fn"}, {"go"} >>
 \* generation only: at most MaxPre requests before configurationDone, so that most of a history is
 \* spent with a live process (the exhaustive configurations have no such bound)
 MaxPre == 2
